@@ -773,7 +773,16 @@ pub(crate) fn check_if_response_is_matched(
             .count();
         let last_n_count = total_count - before_boundary_count;
         if last_n_count > last_n_blocks {
-            (before_boundary_count - reorg_count, last_n_count)
+            if let Some(sampled_count) = before_boundary_count.checked_sub(reorg_count) {
+                (sampled_count, last_n_count)
+            } else {
+                let errmsg = format!(
+                    "failed to verify reorg last n headers since only first {} of {} headers \
+                    are before the difficulty boundary",
+                    before_boundary_count, reorg_count,
+                );
+                return Err(StatusCode::InvalidReorgHeaders.with_context(errmsg));
+            }
         } else {
             (total_count - reorg_count - last_n_blocks, last_n_blocks)
         }
@@ -788,7 +797,7 @@ pub(crate) fn check_if_response_is_matched(
             let last_last_n_header_number = headers[headers.len() - 1].header().number();
             let last_number = last_header.header().number();
             if first_last_n_header_number != start_number
-                || last_last_n_header_number + 1 != last_number
+                || last_last_n_header_number.checked_add(1) != Some(last_number)
             {
                 let errmsg = format!(
                 "there should be all blocks of [{}, {}) since no sampled blocks, but got [{}, {}]",
